@@ -128,6 +128,32 @@ fn run_inner(id: &str) -> Option<(bool, String)> {
             };
             (o != Out::Err, format!("8-byte load at end-4 of a registered 16-byte range: expected an error, got {:?}", o))
         }
+        "verifier-last-insn-class-jmp" => {
+            // ends with a conditional jump that is not taken: execution runs off the end
+            let v = [
+                i(ebpf::MOV64_IMM, 0, 0, 0, 0),
+                i(ebpf::MOV64_IMM, 1, 0, 0, 0),
+                i(ebpf::JEQ_IMM, 0, 0, -2, 1),
+            ];
+            let o = run_raw(&prog(&v), &mut []);
+            (o != Out::Rejected, format!("program whose last instruction is `jeq r0,1,-2`: expected the verifier to refuse it, got {:?}", o))
+        }
+        "verifier-call-into-lddw" => {
+            let v = [
+                i(ebpf::JA, 0, 0, 2, 0),
+                i(ebpf::LD_DW_IMM, 0, 0, 0, 1),
+                i(0, 0, 0, 0, 0),
+                i(ebpf::CALL, 0, 1, 0, -2),
+                i(ebpf::EXIT, 0, 0, 0, 0),
+            ];
+            let o = run_raw(&prog(&v), &mut []);
+            (o != Out::Rejected, format!("local call landing on the second half of an lddw: expected the verifier to refuse it, got {:?}", o))
+        }
+        "verifier-lddw-r10" => {
+            let v = [i(ebpf::LD_DW_IMM, 10, 0, 0, 1), i(0, 0, 0, 0, 0), i(ebpf::EXIT, 0, 0, 0, 0)];
+            let o = run_raw(&prog(&v), &mut []);
+            (o != Out::Rejected, format!("`lddw r10, 1`: expected the verifier to refuse writing r10, got {:?}", o))
+        }
         _ => return None,
     })
 }
